@@ -16,7 +16,14 @@ theorem runMicro_append (s : St) (l1 l2 : List Micro) : runMicro s (l1 ++ l2) = 
 theorem C07_full_fold_is_step (s : St) (p : Path) (a : Addr) (m : Method)
     (hok : (if (s.cache a).isSome then (s, Out.ok) else s.moveToCache p a).2 = .ok) :
     runMicro s (carryMicro p a m) = (s.carryOne p a m false).1 := by
-  unfold carryMicro runMicro St.carryOne mMoveIn mUnlinkWs mMaterialise
+  unfold St.carryOne
+  split
+  · rename_i hl
+    have hc := (linksTo_spec hl).2
+    have hr := linksTo_readThrough hl
+    unfold carryMicro runMicro mMoveIn mUnlinkWs mMaterialise
+    simp only [List.foldl_cons, List.foldl_nil, hc, if_true, hr]
+  unfold carryMicro runMicro St.carryOneMove mMoveIn mUnlinkWs mMaterialise
   simp only [List.foldl_cons, List.foldl_nil, Bool.false_eq_true, if_false]
   split
   · rfl
@@ -28,7 +35,7 @@ theorem C07_full_fold_is_step (s : St) (p : Path) (a : Addr) (m : Method)
     subst hok
     rfl
 
-theorem mMoveIn_from (s : St) (p : Path) (a : Addr) (h : ∀ b w st l, s.ws p = some (.file b w st l) → HashOf a.d b) :
+theorem mMoveIn_from (s : St) (p : Path) (a : Addr) (h : ∀ b n, s.readThrough p = some (b, n) → HashOf a.d b) :
     CacheFrom s (mMoveIn p a s) := by
   unfold mMoveIn; split
   · exact CacheFrom.refl s
@@ -67,7 +74,7 @@ theorem carryMicro_prefix_cache (s : St) (p : Path) (a : Addr) (m : Method) (k :
     object or a complete, correctly addressed one — objects arrive by `rename`, never by writing at the
     final address. -/
 theorem C07_no_partial_object (s : St) (p : Path) (a : Addr) (m : Method) (k : Nat)
-    (h : ∀ b w st l, s.ws p = some (.file b w st l) → HashOf a.d b) :
+    (h : ∀ b n, s.readThrough p = some (b, n) → HashOf a.d b) :
     CacheFrom s (runMicro s ((carryMicro p a m).take k)) := by
   rcases carryMicro_prefix_cache s p a m k with hc | hc
   · exact cacheFrom_of_eq hc
@@ -93,8 +100,9 @@ theorem C07_bytes_survive (s : St) (p : Path) (a : Addr) (m : Method) (k : Nat) 
     | some o => exact ⟨o, by simp [hc], hnc o hc⟩
     | none =>
       simp only [Option.isSome_none, Bool.false_eq_true, if_false]
+      have hd : s.deref p = s := by simp [St.deref, hw]
       unfold St.moveToCache
-      simp [hw]
+      simp [hd, hw]
   match k with
   | 0 => left; exact ⟨st, by simp [runMicro, St.readThrough, hw]⟩
   | k + 1 =>
@@ -139,8 +147,9 @@ theorem C07_carryIn_failed_recheck_recorded (s : St) (p : Path) (e : Ent) (r' : 
     | some o => exact ⟨o, by simp [hc], hnc o hc⟩
     | none =>
       simp only [Option.isSome_none, Bool.false_eq_true, if_false]
+      have hd : s.deref p = s := by simp [St.deref, hw]
       unfold St.moveToCache
-      simp [hw]
+      simp [hd, hw]
   obtain ⟨o, ho, hb⟩ := hmoved
   right
   refine ⟨r', d, o, ?_, hcur, ?_, hb⟩
